@@ -40,7 +40,7 @@ Fixpoint kv_get (k : nat) (m : kv) : option Z :=
   | (k', v) :: r => if k =? k' then Some v else kv_get k r
   end.
 
-Record task := { t_status : status; t_started : bool }.
+Record task := { t_status : status; t_started : bool; t_disabled : bool (* a SkippableTask whose is_enabled() is false *) }.
 
 Record stage := {
   s_reqs : list nat;                 (* requisite_stage_ref_ids, as stage indices (all smaller than own index) *)
@@ -63,6 +63,7 @@ Record stage := {
   s_buffered : list nat;             (* context._buffered_signals (signal name tags) *)
   s_signal : option nat;             (* context._signal_name *)
   s_has_exc : bool;                  (* "exception" in context *)
+  s_plan_pending : bool;             (* context._plan_pending: claimed, plan commit still to come *)
   s_ctx : kv;                        (* user context keys *)
   s_outs : kv;                       (* outputs *)
   s_tasks : list task;
@@ -192,7 +193,7 @@ Definition st_set (st : stage) (status : status) (started ended : bool) (fired :
      s_enabled := s_enabled st; s_mutex := s_mutex st; s_choice := s_choice st; s_max_jumps := s_max_jumps st;
      s_status := status; s_started := started; s_ended := ended; s_version := s_version st + 1;
      s_fired := fired; s_branches := branches; s_bypass := s_bypass st; s_jump_count := s_jump_count st;
-     s_buffered := s_buffered st; s_signal := s_signal st; s_has_exc := has_exc;
+     s_buffered := s_buffered st; s_signal := s_signal st; s_has_exc := has_exc; s_plan_pending := s_plan_pending st;
      s_ctx := ctx; s_outs := outs; s_tasks := tasks |}.
 
 (* store_stage of an object whose only changes are the given ones; version + 1 *)
@@ -213,7 +214,7 @@ Definition st_ctl (st : stage) (bypass : bool) (jc : Z) (buffered : list nat) (s
      s_enabled := s_enabled st; s_mutex := s_mutex st; s_choice := s_choice st; s_max_jumps := s_max_jumps st;
      s_status := s_status st; s_started := s_started st; s_ended := s_ended st; s_version := s_version st;
      s_fired := s_fired st; s_branches := s_branches st; s_bypass := bypass; s_jump_count := jc;
-     s_buffered := buffered; s_signal := sig; s_has_exc := s_has_exc st;
+     s_buffered := buffered; s_signal := sig; s_has_exc := s_has_exc st; s_plan_pending := s_plan_pending st;
      s_ctx := s_ctx st; s_outs := s_outs st; s_tasks := s_tasks st |}.
 
 (* context change folded into a store that is already counted (no extra version bump) *)
@@ -222,11 +223,22 @@ Definition with_ctx (st : stage) (ctx : kv) : stage :=
      s_enabled := s_enabled st; s_mutex := s_mutex st; s_choice := s_choice st; s_max_jumps := s_max_jumps st;
      s_status := s_status st; s_started := s_started st; s_ended := s_ended st; s_version := s_version st;
      s_fired := s_fired st; s_branches := s_branches st; s_bypass := s_bypass st; s_jump_count := s_jump_count st;
-     s_buffered := s_buffered st; s_signal := s_signal st; s_has_exc := s_has_exc st;
+     s_buffered := s_buffered st; s_signal := s_signal st; s_has_exc := s_has_exc st; s_plan_pending := s_plan_pending st;
      s_ctx := ctx; s_outs := s_outs st; s_tasks := s_tasks st |}.
 
+Definition with_pending (st : stage) (p : bool) : stage :=
+  {| s_reqs := s_reqs st; s_join := s_join st; s_threshold := s_threshold st; s_cof := s_cof st; s_fp := s_fp st;
+     s_enabled := s_enabled st; s_mutex := s_mutex st; s_choice := s_choice st; s_max_jumps := s_max_jumps st;
+     s_status := s_status st; s_started := s_started st; s_ended := s_ended st; s_version := s_version st;
+     s_fired := s_fired st; s_branches := s_branches st; s_bypass := s_bypass st; s_jump_count := s_jump_count st;
+     s_buffered := s_buffered st; s_signal := s_signal st; s_has_exc := s_has_exc st; s_plan_pending := p;
+     s_ctx := s_ctx st; s_outs := s_outs st; s_tasks := s_tasks st |}.
+
 Definition task_set (ts : list task) (t : nat) (x : status) (started : bool) : list task :=
-  list_set ts t {| t_status := x; t_started := started |}.
+  match nth_error ts t with
+  | Some tk => list_set ts t {| t_status := x; t_started := started; t_disabled := t_disabled tk |}
+  | None => ts
+  end.
 
 Definition seqn (n : nat) : list nat := seq 0 n.
 
@@ -354,7 +366,7 @@ Definition siblings_not_started (s : state) (i : nat) (g : nat) : list nat :=
 Definition start_if_ready (s : state) (id i : nat) (retry : Z) (st0 : stage) (bypass : bool) : hres :=
   (* st0 = the stage as read, with _jump_bypass already deleted in memory when it was set *)
   let st := if bypass then st_ctl st0 false (s_jump_count st0) (s_buffered st0) (s_signal st0) else st0 in
-  let zombie := status_eqb (s_status st) RUNNING && is_nil (s_tasks st) in
+  let zombie := status_eqb (s_status st) RUNNING && (s_plan_pending st || is_nil (s_tasks st)) in
   if negb (start_stage_fresh (s_status st)) && negb zombie then ok []
   else if should_skip st then ok [txn [mark id; push (MSkipStage i)]]
   else if mutex_blocked s i st then ok [push (MStartStage i (retry + 1))]
@@ -373,8 +385,8 @@ Definition start_if_ready (s : state) (id i : nat) (retry : Z) (st0 : stage) (by
       if negb (fst c) then ok [txn [mark id; push (MCancelStage i)]]
       else
         let claimed := if zombie then st_touch st
-                       else st_set st RUNNING true (s_ended st) (s_fired st) (s_branches st) (s_has_exc st)
-                                   (s_ctx st) (s_outs st) (s_tasks st) in
+                       else with_pending (st_set st RUNNING true (s_ended st) (s_fired st) (s_branches st) (s_has_exc st)
+                                                         (s_ctx st) (s_outs st) (s_tasks st)) true in
         let claim_commit : commit := fun s' =>
           let s2 := put_stage i claimed (with_claims (snd c) s') in
           if zombie then s2 else ghost_start i (s_jump_count st) s2 in
@@ -383,8 +395,8 @@ Definition start_if_ready (s : state) (id i : nat) (retry : Z) (st0 : stage) (by
           | Some g => map (fun j => push (MCancelStage j)) (siblings_not_started s i g)
           | None => [] end in
         let fired := match s_join st with J_DISCRIMINATOR | J_N_OF_M => true | _ => s_fired st end in
-        let planned := st_set claimed (s_status claimed) (s_started claimed) (s_ended claimed) fired (s_branches claimed)
-                              (s_has_exc claimed) (planned_ctx s st) (s_outs claimed) (s_tasks claimed) in
+        let planned := with_pending (st_set claimed (s_status claimed) (s_started claimed) (s_ended claimed) fired (s_branches claimed)
+                              (s_has_exc claimed) (planned_ctx s st) (s_outs claimed) (s_tasks claimed)) false in
         ok ([claim_commit] ++ sib_commits ++
             [txn [put_stage i planned; mark id; pushes (first_msgs i st)]]).
 
@@ -399,10 +411,11 @@ Definition handle_start_stage (s : state) (id i : nat) (retry : Z) : hres :=
       | P_READY => start_if_ready s id i retry st bypass
       | P_SKIP => ok [push (MCompleteWorkflow 0)]
       | _ =>
-          if start_stage_waits r ups then ok []
+          if start_stage_late (s_status st) then ok []
+          else if start_stage_waits r ups then ok []
           else if wait_exhausted retry max_stage_wait_retries then
             if can_transition (s_status st) TERMINAL then
-              ok [txn [put_stage i (st_exc (st_end st TERMINAL)); push (MCompleteStage i)]]
+              ok [txn [put_stage i (st_set st TERMINAL (s_started st) true (s_fired st) (s_branches st) true (s_ctx st) (s_outs st) (s_tasks st)); push (MCompleteStage i)]]
             else (* InvalidStateTransitionError -> generic except -> do_mark_error on the fresh stage *)
               ok [txn [put_stage i (st_exc st); push (MCompleteStage i)]]
           else ok [push (MStartStage i (retry + 1))]
@@ -418,6 +431,8 @@ Definition handle_start_task (s : state) (id i t : nat) : hres :=
       | None => ok []
       | Some tk =>
           if negb (start_task_guard (t_status tk)) then ok [mark id]
+          else if t_disabled tk then
+            ok [txn [put_stage i (st_tasks st (task_set (s_tasks st) t SKIPPED (t_started tk))); mark id; push (MCompleteTask i t SKIPPED)]]
           else ok [txn [put_stage i (st_tasks st (task_set (s_tasks st) t RUNNING true)); mark id; push (MRunTask i t)]]
       end
   end.
@@ -500,7 +515,7 @@ Definition handle_complete_task (s : state) (id i t : nat) (x : status) : hres :
       match nth_error (s_tasks st) t with
       | None => ok []
       | Some tk =>
-          if negb (complete_task_guard (t_status tk)) then ok [mark id]
+          if negb (complete_task_guard (t_status tk) x) then ok [mark id]
           else if negb (can_transition (t_status tk) x) then {| h_pre := fun s => s; h_commits := []; h_raised := true |}
           else
             let st' := st_tasks st (task_set (s_tasks st) t x (t_started tk)) in
@@ -561,7 +576,7 @@ Definition handle_skip_stage (s : state) (id i : nat) : hres :=
 (* ---- CancelStage ---- *)
 Definition cancel_tasks (ts : list task) : list task :=
   map (fun tk => if status_eqb (t_status tk) NOT_STARTED || status_eqb (t_status tk) RUNNING
-                 then {| t_status := CANCELED; t_started := t_started tk |} else tk) ts.
+                 then {| t_status := CANCELED; t_started := t_started tk; t_disabled := t_disabled tk |} else tk) ts.
 
 Definition handle_cancel_stage (s : state) (id i : nat) : hres :=
   match get_stage s i with
@@ -661,19 +676,19 @@ Definition all_dependents (s : state) (seed : nat) : list nat :=
   dependents_fix (S (length (w_stages s))) s [] seed.
 
 Definition reset_for_retry (st : stage) : stage :=
-  st_set st NOT_STARTED false false false [] (s_has_exc st) (s_ctx st) [] (map (fun _ => {| t_status := NOT_STARTED; t_started := false |}) (s_tasks st)).
+  st_set st NOT_STARTED false false false [] (s_has_exc st) (s_ctx st) [] (map (fun tk => {| t_status := NOT_STARTED; t_started := false; t_disabled := t_disabled tk |}) (s_tasks st)).
 
 Definition to_terminal (st : stage) : stage :=
   st_set st TERMINAL (s_started st) true (s_fired st) (s_branches st) (s_has_exc st) (s_ctx st) (s_outs st)
-         (map (fun tk => if status_eqb (t_status tk) RUNNING then {| t_status := TERMINAL; t_started := t_started tk |} else tk) (s_tasks st)).
+         (map (fun tk => if status_eqb (t_status tk) RUNNING then {| t_status := TERMINAL; t_started := t_started tk; t_disabled := t_disabled tk |} else tk) (s_tasks st)).
 
 Definition to_succeeded (st : stage) : stage :=
   st_set st SUCCEEDED (s_started st) true (s_fired st) (s_branches st) (s_has_exc st) (s_ctx st) (s_outs st)
-         (map (fun tk => if status_eqb (t_status tk) RUNNING then {| t_status := SUCCEEDED; t_started := t_started tk |} else tk) (s_tasks st)).
+         (map (fun tk => if status_eqb (t_status tk) RUNNING then {| t_status := SUCCEEDED; t_started := t_started tk; t_disabled := t_disabled tk |} else tk) (s_tasks st)).
 
 Definition to_skipped (st : stage) : stage :=
   st_set st SKIPPED (s_started st) true (s_fired st) (s_branches st) (s_has_exc st) (s_ctx st) (s_outs st)
-         (map (fun tk => {| t_status := SKIPPED; t_started := t_started tk |}) (s_tasks st)).
+         (map (fun tk => {| t_status := SKIPPED; t_started := t_started tk; t_disabled := t_disabled tk |}) (s_tasks st)).
 
 Definition mutate (j : nat) (f : stage -> stage) : commit :=
   fun s => match get_stage s j with Some st => put_stage j (f st) s | None => s end.
@@ -688,6 +703,7 @@ Definition handle_jump (s : state) (id i tg : nat) (jctx : kv) : hres :=
   match get_stage s i with
   | None => ok []
   | Some src =>
+      if w_canceled s then ok [mark id] else
       match get_stage s tg with
       | None => ok [txn [mutate i to_terminal; mark id; push (MCompleteStage i)]]
       | Some tgt =>
@@ -780,7 +796,8 @@ Definition recover_stage (s : state) (i : nat) (st : stage) : list msg :=
     | _ :: _ => flat_map (fun t => if has_pending_for_task s i t then [] else [MRunTask i t]) running
     | [] =>
         match notstarted with
-        | t :: _ => if s_started st then (if has_pending_for_task s i t then [] else [MStartTask i t]) else [MStartStage i 0]
+        | t :: _ => if s_started st && negb (s_plan_pending st)
+                    then (if has_pending_for_task s i t then [] else [MStartTask i t]) else [MStartStage i 0]
         | [] => [MStartStage i 0]
         end
     end
@@ -860,7 +877,7 @@ Definition step_trace (orc : oracle) (s : state) (a : action) : list state :=
   end.
 
 (* initial state of a workflow *)
-Definition mk_task : task := {| t_status := NOT_STARTED; t_started := false |}.
+Definition mk_task (disabled : bool) : task := {| t_status := NOT_STARTED; t_started := false; t_disabled := disabled |}.
 
 Definition init_state (stages : list stage) (wmax : option Z) : state :=
   {| w_status := NOT_STARTED; w_canceled := false; w_max_jumps := wmax; w_stages := stages; w_queue := [];
